@@ -3,6 +3,7 @@ package main
 import (
 	"bytes"
 	"math/rand"
+	"reflect"
 	"strings"
 
 	"verif/harness/internal/smf"
@@ -131,9 +132,43 @@ func init() {
 				}
 				hist(nil)
 			}
+			// long pieces made of one section repeated: a section opens with an explicit key and modulates inside, so every
+			// repetition converts alike -- if the key in force is carried across the whole piece (whatever batch or buffer
+			// boundaries a converter has: 7-chord sections fall differently on every multiple of 1024)
+			for i, sec := range []struct{ key, text string }{
+				{"C", "D[1]{key=D} F#m[1] G[1] A_7[1] B[1]{key=B} E[1] F#_7[1]"},
+				{"", "Eb[1]{key=Eb} Ab[1] R[1] Bb_7[1] Cm[1]{key=Cm} G[1] Fm/Ab[1,1/2]"},
+				{"F#m", "A[1]{key=A} D[1] E[1] R[1]{key=Gm} Gm[1] Cm[1] D_7[1]"},
+			} {
+				reps := 450
+				if !c.quick() {
+					reps = 1500
+				}
+				if c.quick() && i == 2 {
+					continue
+				}
+				cases = append(cases, Case{"section": sec.text, "key": sec.key, "reps": reps})
+			}
 			return cases
 		},
 		Exec: func(c *Ctx, k Case) []Rec {
+			if sec := cs(k, "section"); sec != "" {
+				one, _ := convRec(c, "syllable", cs(k, "key"), sec+"\n")
+				whole := c.crdEnv(append([]string{"text", "conv", "syllable"}, keyArgs(cs(k, "key"))...), []byte(strings.Repeat(sec+"\n", ci(k, "reps"))), nil, 120e9)
+				out, ok := projectInstances(whole.Stdout)
+				blocks := ok && whole.Exit == 0
+				n1 := 0
+				if o1, _ := one["out"].([]Rec); len(o1) > 0 {
+					n1 = len(o1)
+					for i := range out {
+						if blocks && !reflect.DeepEqual(out[i], o1[i%n1]) {
+							blocks = false
+						}
+					}
+				}
+				return []Rec{{"kind": "sections", "sub": "sections", "x": one, "reps": ci(k, "reps"), "wholeOk": ok && whole.Exit == 0, "n": len(out), "blocksEqual": blocks,
+					"terminated": !whole.TimedOut}}
+			}
 			if t := cs(k, "syltext"); t != "" {
 				r, _ := convRec(c, "syllable", cs(k, "key"), t+"\n")
 				return []Rec{{"kind": "syl", "sub": "syl", "x": r}}
@@ -196,4 +231,11 @@ func init() {
 			return map[string]any{"syllable_conversions": conv, "syllable_refused": refused}
 		},
 	})
+}
+
+func keyArgs(k string) []string {
+	if k == "" {
+		return nil
+	}
+	return []string{"--key", k}
 }
